@@ -5,6 +5,7 @@ from hypothesis import strategies as st
 from vlib import strat as S, oracles as O, groups as GR, hkl as HK
 
 ID = "C14"
+SWITCH_OFF = 6        # every 6th case runs with xfab.CHECKS switched off (results must not depend on it)
 RULE = ("Hypothesis: one case draws inputs for all 41 functions defined in both modules (cell over the C01 domain, rotation "
         "spec incl. near-gimbal, hkl, strain, angles, g-vector/2theta/tilts, (y,x) pairs across the 1e-8 threshold of _arctan2, "
         "a generated 26-slot syscond vector and hkl, a space-group setting with a gap-constructed shell); every function is called "
